@@ -20,3 +20,37 @@ Theorem C10_retention : forall cx s, Inv cx s ->
   (forall id h, aget id (tile_by_id s) = Some (THash h) -> exists d, aget h (data_by_hash s) = Some d) /\
   NoDup (akeys (data_by_hash s)).
 Proof. exact retention. Qed.
+
+(** * layout: what [finish] lays out is the specification layout *)
+Require Import PM.FinishSpec PM.FinishProofs.
+
+(** [finish] equals [spec_finish] of the logical content (the (id, content) list sorted by id): hashes,
+    internal map orders, in-memory vs reader-backed tiles do not matter.  Hypotheses: the content hash
+    is injective on the contents that occur, contents are shorter than 2^32 bytes, ids below 2^63
+    (all valid tile ids are), fewer than 2^32 - 1 tiles *)
+Theorem C10_finish_is_spec : forall cx s tiles U, Inv cx s -> logical s = Ok tiles ->
+  hash_inj_on cx U -> (forall c, In c U -> nlen c < two32) ->
+  Forall (fun t => In (snd t) U /\ fst t < two63) tiles -> nlen tiles + 1 < two32 ->
+  finish cx s = Ok (spec_finish tiles).
+Proof. exact finish_is_spec. Qed.
+
+(** the tile-data section is the distinct contents, each exactly once (first-occurrence order), so its
+    length is the sum of the distinct contents' lengths; the counters are the numbers of tiles and of
+    distinct contents *)
+Theorem C10_data_once : forall tiles, fr_data (spec_finish tiles) = concat (first_occ (map snd tiles) []) /\
+  fr_contents (spec_finish tiles) = nlen (first_occ (map snd tiles) []) /\
+  fr_addressed (spec_finish tiles) = nlen tiles.
+Proof. exact spec_finish_data. Qed.
+
+(** no two adjacent entries could be merged further *)
+Theorem C10_runs_maximal : forall tiles, no_mergeable (fr_dir (spec_finish tiles)).
+Proof. exact spec_finish_runs_maximal. Qed.
+
+(** run-length encoding loses nothing: expanding the entries gives every tile's (id, offset, length) back *)
+Theorem C10_runs_exact : forall tiles, expand (fr_dir (spec_finish tiles)) = fst (place tiles [] 0).
+Proof. exact spec_finish_expand. Qed.
+
+Example C10_example :
+  let r := spec_finish [(1, [7;7]); (2, [7;7]); (3, [9]); (5, [7;7])] in
+  (fr_data r, fr_dir r, fr_contents r) = ([7;7;9], [mkEntry 1 0 2 2; mkEntry 3 2 1 1; mkEntry 5 0 2 1], 2).
+Proof. vm_compute. reflexivity. Qed.
